@@ -110,8 +110,8 @@ func c13Historical(c *Ctx) {
 				} else if !v.Args[1].MentionsCall("GetLastValidators") && !factKeyIs(p, i, "(0 < builtin.len("+lastV+"))", false) {
 					o.Fail(c.evPos(ev), "validator list of the record does not derive from GetLastValidators: "+trunc(vals.Key(), 140), c.Dump(p, i))
 				}
-				rel, n := p.Relation(i, keyIs(E), keyIs("0"))
-				if n == 0 || rel&rEQ != 0 {
+				if !p.nonZeroOn(i, E) {
+					rel, _ := p.Relation(i, keyIs(E), keyIs("0"))
 					o.Fail(c.evPos(ev), "record written although the retention may be 0 (relation(entries, 0) = "+relString(rel)+")", c.Dump(p, i))
 				}
 			}
@@ -120,8 +120,7 @@ func c13Historical(c *Ctx) {
 			}
 			nOK++
 			// exactly one record unless retention is 0
-			rel, n := p.Relation(len(p.Events), keyIs(E), keyIs("0"))
-			if n > 0 && rel == rEQ {
+			if p.zeroOn(len(p.Events), E) {
 				if len(sets) != 0 {
 					o.Fail(c.W.Pos(fn.Pos()), "record written with retention 0", c.Dump(p, -1))
 				}
